@@ -188,7 +188,15 @@ def case(draw, tier):
     stop_req = None
     if draw(st.integers(0, 4)) == 0:
         stop_req = {"node": draw(st.sampled_from([t for t in targets if "." not in t])), "ord": draw(st.integers(0, 3))}
-    return {"end": horizon, "stmts": stmts, "subs": subs, "faults": faults, "cleanup": draw(st.booleans()), "stop_req": stop_req, "shape": shape}
+    # node-level error capture switched on for one root node that has no evaluate fault planned: the derived capturing node type
+    # must keep the node's own start / stop hooks
+    errcap = None
+    free = [t for t in targets if "." not in t and t != "after" and not any(f["node"] == t and f["phase"] == "eval" for f in faults)]
+    if free and draw(st.integers(0, 3)) == 0:
+        errcap = draw(st.sampled_from(free))
+        stmts.append({"id": "ec", "op": "errcap", "of": errcap})
+        stmts.append({"id": "ecr", "op": "node", "ins": ["ec"], "log_inputs": False, "valid": []})
+    return {"errcap": errcap, "end": horizon, "stmts": stmts, "subs": subs, "faults": faults, "cleanup": draw(st.booleans()), "stop_req": stop_req, "shape": shape}
 
 
 def strategy(tier):
@@ -298,6 +306,23 @@ def check(case, ctx) -> Result:
             out.append(("never_stopped", f"node {label.get(key, key)} in {key[0]} completed its start but was never stopped (not even at executor release)", {"where": where}))
         elif s_lim < n:
             out.append(("stopped_too_late", f"node {label.get(key, key)} in {key[0]} was stopped only after {'run() returned' if case['cleanup'] or err is None else 'the executor was released'}", {"where": where}))
+    # the node's OWN stop code ran as often as its own start code completed (the observer's stop events above are the engine's
+    # view; a node type that lost its stop hook still produces them)
+    u_started, u_stopped = {}, {}
+    failed_user_start = set()
+    for pos, e in enumerate(trace):
+        if e[0] == "us":
+            u_started[(e[1], e[2])] = u_started.get((e[1], e[2]), 0) + 1
+            label.setdefault((e[1], e[2]), e[3])
+        elif e[0] == "nsf":
+            if u_started.get((e[1], e[2])):
+                u_started[(e[1], e[2])] -= 1          # that start threw: no stop is owed for it
+        elif e[0] == "up" and (limit is None or pos < limit):
+            u_stopped[(e[1], e[2])] = u_stopped.get((e[1], e[2]), 0) + 1
+    for key, n in u_started.items():
+        if n > 0 and u_stopped.get(key, 0) < n and not any(o[0] in ("never_stopped", "stopped_too_late") for o in out):
+            out.append(("stop_hook_not_run", f"node {label.get(key, key)} in {key[0]}: its start code completed {n}x but its stop code ran {u_stopped.get(key, 0)}x by the time {'run() returned' if case['cleanup'] or err is None else 'the executor was released'}", {"where": "root" if key[0] == "r" else "child", "errcap": label.get(key) == case.get("errcap")}))
+            break
     for gid, order in start_order.items():
         if any(b <= a for a, b in zip(order, order[1:])):
             # a graph whose memory slot is reused restarts from 0: split on restarts
@@ -357,6 +382,8 @@ def check(case, ctx) -> Result:
         res.labels.append("dynamic_child_alive_at_fault")
     if case["stop_req"]:
         res.labels.append("request_stop")
+    if case.get("errcap"):
+        res.labels.append("error_capture_on_a_node_with_hooks")
     for f in case["faults"]:
         res.labels.append("plan_" + f["phase"])
     res.summary = {"faults": case["faults"], "error": str((err or {}).get("what", ""))[:160], "started": len(started)}
